@@ -15,6 +15,11 @@
 (*   runs [off, cnt, dir, adv, vi, tr (is truncator), g], truncated, next, done, w            *)
 EXTENDS Integers, Sequences, FiniteSets
 
+(* widths are compared in whole pixels (the wrapper compares Ceil of the 26.6 advance with the integer   *)
+(* width); written without multiplying the width by 64, which overflows 32-bit integers for "unlimited"  *)
+(* widths such as MaxInt32                                                                              *)
+CeilPx(x) == IF x >= 0 THEN (x + 63) \div 64 ELSE 0 - ((0 - x) \div 64)
+
 SeqToSet(s) == {s[i] : i \in DOMAIN s}
 
 RECURSIVE SumUpTo(_, _)
@@ -125,7 +130,7 @@ IsTruncLine(sc, k) == sc.cfg.trunc > 0 /\ k = sc.cfg.trunc
 SplitOnlyWhenNecessary(sc, ln, pos, k) ==
   (sc.cfg.pol = 0 /\ ~BodyEmpty(ln) /\ ln.next # sc.n /\ ln.next \notin WB(sc))
     => \/ IsTruncLine(sc, k)
-       \/ Width(sc, pos, FirstPerm(sc, FALSE, pos)) > ln.w * 64
+       \/ CeilPx(Width(sc, pos, FirstPerm(sc, FALSE, pos))) > ln.w
 
 (* ------------------------------------------------------------------ C04 *)
 (* measured width of the returned line *)
@@ -142,20 +147,20 @@ TruncW(sc, ln) == ln.w - ((sc.cfg.tadv + 63) \div 64)
 
 Fits(sc, ln, pos, k) ==
   \/ BodyEmpty(ln)
-  \/ Measured(sc, ln) <= 64 * (IF HasTruncator(ln) THEN TruncW(sc, ln) ELSE ln.w)
+  \/ CeilPx(Measured(sc, ln)) <= (IF HasTruncator(ln) THEN TruncW(sc, ln) ELSE ln.w)
   \/ ln.next = FirstPerm(sc, Fine(sc), pos)          \* a single unbreakable unit
 
 (* granularity at which this line could have been extended *)
 GreedyFine(sc, ln, pos) ==
   CASE sc.cfg.pol = 2 -> TRUE
     [] sc.cfg.pol = 1 -> FALSE
-    [] OTHER -> Width(sc, pos, FirstPerm(sc, FALSE, pos)) > ln.w * 64
+    [] OTHER -> CeilPx(Width(sc, pos, FirstPerm(sc, FALSE, pos))) > ln.w
 
 Greedy(sc, ln, pos, k) ==
   (ln.next < sc.n /\ ln.next > pos /\ ln.next \notin MB(sc) /\ ~IsTruncLine(sc, k))
     => LET e2 == FirstPerm(sc, GreedyFine(sc, ln, pos), ln.next)
        IN \/ \E m \in MB(sc) \cap CB(sc) : pos < m /\ m < e2
-          \/ Width(sc, pos, e2) > ln.w * 64
+          \/ CeilPx(Width(sc, pos, e2)) > ln.w
 
 TruncCount(sc, k) == sc.cfg.trunc > 0 => k <= sc.cfg.trunc
 
@@ -173,5 +178,5 @@ TruncGreedy(sc, ln, pos, k) ==
   (IsTruncLine(sc, k) /\ ln.truncated > 0 /\ ~BodyEmpty(ln))
     => LET e2 == FirstPerm(sc, Fine(sc), ln.next)
        IN \/ \E m \in MB(sc) \cap CB(sc) : pos < m /\ m <= ln.next
-          \/ Width(sc, pos, e2) > 64 * (IF e2 = sc.n /\ ~sc.cfg.cont THEN ln.w ELSE TruncW(sc, ln))
+          \/ CeilPx(Width(sc, pos, e2)) > (IF e2 = sc.n /\ ~sc.cfg.cont THEN ln.w ELSE TruncW(sc, ln))
 =============================================================================
